@@ -50,7 +50,7 @@ CHECKS.update({
          "In-process: RunnerConfig::run vs the stated loop on a second real Machine (full Machine equality and cycle count) for generated source programs x configurations x budgets {0, 1, small, halt time +-2, large} x interrupt/reset schedules with duplicates, cycle 0, beyond-the-end entries and same-cycle collisions; verify() for all 8 expectation subsets x matching / one mismatching value. Process: the real 2a-emulator built from the working tree, every byte flag in decimal/0x/0b, repeated --interrupt/--reset, verify sub-command, malformed values, missing file / directory / non-UTF-8 / syntax error / undefined label; printed Cycles/State/FE/FF and the exit status compared.",
          "Trusted: the stated loop as written in the harness; parser/translator/Machine are real components on both sides; only the subset of programs on which compile+load is total is generated.", "DESIGN.md 6 C12"),
  "C17": ("exploration", "deterministic simulation of the event-driven front end: scripted terminal events, terminal resizes, auto-run budgets and file faults driven through the real Tui headlessly (guarded hook), one frame per event",
-         "Sessions of 1-200 events (ASCII, command fragments, complete generated command lines of every documented form with boundary values and malformed tokens, multi-byte characters, editing/history/completion keys, CTRL chords, unknown keys, mouse/resize events, resizes over 1x1..250x100, load targets with file faults): no panic in handle_event+draw; the rendered cursor stays inside the text; every submitted line is classified by an independent recogniser of the documented commands and the session's machine must equal a twin on which the library call of the same name was made, or the line must be rejected with a notification and no effect; CTRL keys and empty-line Enter act as the library calls.",
+         "A bounded-exhaustive part first (every sequence of 3 / 5 editing keys over a 14-key alphabet from four editor start states), then sampled sessions of 1-200 events and scripted families (more than 1 000 submitted lines, a large `next N`, a 4 000-digit value, repeated setters around loads) (ASCII, command fragments, complete generated command lines of every documented form with boundary values and malformed tokens, multi-byte characters, editing/history/completion keys, CTRL chords, unknown keys, mouse/resize events, resizes over 1x1..250x100, load targets with file faults): no panic in handle_event+draw; the rendered cursor stays inside the text; plainly typed text is what the field holds; every submitted line is classified by an independent recogniser of the documented commands and the session's machine must equal a twin on which the library call of the same name was made, or the line must be rejected with a notification and no effect; CTRL keys and empty-line Enter act as the library calls.",
          "Trusted: R-CMD recogniser written from README/property text; stubs: TestBackend, injected event queue, verif_frame instead of the loop shell of Tui::run (a change confined to that shell is not detected).", "DESIGN.md 6 C17"),
 })
 
